@@ -385,6 +385,38 @@ theorem c12_asis_stop_deadlock (H : Heap) (s : State) (tag : Nat) :
 
 /-! ## destruction -/
 
+/-- The stop request of `~scheduler()` (and of `start()` when its awaitable completes) is never lost, for every
+interleaving of the worker's and the stopper's steps and whatever the vector holds: once `request_stop()` has returned,
+the worker is not parked in `wait_until` — it has exited or is on its way to the stop check, which it fails (the flag is
+set) — so destruction never has to wait for a sleeper's deadline (or forever, on an empty vector). -/
+theorem c12_stop_not_lost (acts : List Stop.Act) :
+    ¬ Stop.Lost (Stop.run Stop.step {} acts) ∧
+    ((Stop.run Stop.step {} acts).sp = Stop.SPc.done →
+      ((Stop.run Stop.step {} acts).w = Stop.WPc.exited ∨
+       Stop.step (Stop.run Stop.step {} acts) Stop.Act.wLock =
+         some { Stop.run Stop.step {} acts with w := Stop.WPc.exited })) := by
+  have hi : Stop.Inv (Stop.run Stop.step {} acts) :=
+    Stop.inv_run acts {} ⟨by simp, by simp, by simp⟩
+  constructor
+  · rintro ⟨h1, h2⟩
+    rcases hi.after (Or.inr h1) with h | h <;> rw [h2] at h <;> cases h
+  · intro hd
+    have hf := hi.flagged (by rw [hd]; simp)
+    rcases hi.after (Or.inr hd) with h | h
+    · right; simp [Stop.step, Stop.workerStep, h, hd, hf]
+    · left; exact h
+
+/-- The callback as it was (`_cond.notify_all()` without `_mx`) loses the request when it arrives between the worker's
+stop check and its `wait_until`: the worker parks although the stop request is complete, and nothing but the deadline
+of its own wait can move it (replayed on the header: corpus/c12stop_race.txt — `~scheduler()` returned only when the
+virtual clock reached the next sleeper's time point). -/
+theorem c12_asis_stop_lost :
+    let s := Stop.run Stop.stepAsIs {} [Stop.Act.wLock, Stop.Act.sFlag, Stop.Act.sNotify, Stop.Act.wPollWait]
+    Stop.Lost s ∧ ∀ a, a ≠ Stop.Act.wTimeout → Stop.stepAsIs s a = none := by
+  refine ⟨⟨by decide, by decide⟩, ?_⟩
+  intro a ha
+  cases a <;> first | rfl | exact absurd rfl ha
+
 /-- Destroying the scheduler completes every sleep that is still pending (the promise is dropped: the sleeper sees
 `await_canceled_exception`) and only those. -/
 theorem c12_destroy_step (s : State) :
